@@ -22,12 +22,24 @@
 //     handed: the type σ, the step function `σ → a1 → … → an → σ × r1 × … × rm` (the closure's helper definition applied to
 //     its read-only captures) and the current state. The external returns the state it leaves in front of its results
 //     (after the new values of its reader parameters). With no assigned captures σ is `Unit`. The external is an ARBITRARY
-//     function of these (for every σ): nothing says that it reaches the state only through the step function — that is an
-//     explicit hypothesis of the theorems that need it (`C03.CallsOnly`, Properties/C03g.lean), never an assumption of the
-//     translation. What the translation does assume: the external calls the closure only while it runs (one that keeps the
+//     function of these (for every σ): nothing says that it reaches the state only through the step function — a theorem
+//     that needs that has to assume it of the external (none does at present: `(*Authenticode).verifyDigest`, the one
+//     function that is handed a closure, is translated, see below), it is never an assumption of the translation. What
+//     the translation does assume: the callee calls the closure only while it runs (one that keeps the
 //     closure and calls it later, or from another goroutine, changes the captured variables behind the translated code's
 //     back: aliasing, not modelled). The field has the type `… → (σ : Type) → (σ → … → σ × …) → σ → σ × results`, so an Ext structure with
 //     such a field lives in `Type 1`.
+//   - A function-typed parameter of a TRANSLATED function (`verifyDigest(cert, imageDigest func(crypto.Hash) ([]byte, error))`):
+//     the same three binders `(σk : Type) (f : σk → a1 → … → σk × r1 × …) (f_s : σk)`, the state comes back in front of the
+//     results; a call `f(x)` is `f f_s x` and rebinds `f_s`. Here "reaches the state only by calling" is what Gen.lean shows.
+//     Only calls of the parameter are translated (handed on, stored, compared: rejected; a call inside a loop or a closure:
+//     rejected). The argument is the name of a local closure or — at the top level of the function body — a function
+//     literal, which becomes a closure named after the parameter.
+//   - `crypto.Hash.Size()` is the prelude's table `cryptoHashSize` (the panic for an unregistered identifier: not modelled),
+//     `asn1.ObjectIdentifier.Equal` equality of the lists; pkix.AlgorithmIdentifier is loaded as a struct (sect.go) where a
+//     translated function reads it (authenticode.Authenticode.Algid).
+//   - A function that needs the Ext structures of two packages takes its own package's, which holds the other one as a
+//     field (`pkcs7 : pkcs7.Ext` in `authenticode.Ext`; main.go computeUsesX).
 //     A call of such an external counts as an assignment of the closure's assigned captures (loops thread them, the
 //     branches of an `if` join them). A closure name anywhere else than in a call of it or as such an argument is rejected.
 //   - A closure that calls an external function takes the Ext structure (`X`) after the fuel.
@@ -122,6 +134,12 @@ func (t *fnTrans) hashCall(c *ast.CallExpr) (string, bool) {
 		return "", false
 	}
 	switch {
+	case isCryptoHash(sel.Recv()) && se.Sel.Name == "Size" && len(c.Args) == 0:
+		// the table of package crypto (prelude); the panic for an unregistered identifier is not modelled
+		return fmt.Sprintf("(cryptoHashSize %s)", t.expr(se.X)), true
+	case namedIs(sel.Recv(), "encoding/asn1", "ObjectIdentifier") && se.Sel.Name == "Equal" && len(c.Args) == 1:
+		// same length and the same components: equality of the lists
+		return fmt.Sprintf("(%s == %s)", t.expr(se.X), t.expr(c.Args[0])), true
 	case isCryptoHash(sel.Recv()) && se.Sel.Name == "New" && len(c.Args) == 0:
 		return fmt.Sprintf("(⟨%s, []⟩ : HashObj)", t.expr(se.X)), true
 	case isHashObj(sel.Recv()) && se.Sel.Name == "Sum" && len(c.Args) == 1:
@@ -245,6 +263,20 @@ func fnParamType(n ast.Node, sig *types.Signature, k int) (binders []string, sig
 // closureArg: the argument `e` of an opaque function's function-typed parameter: the name of a local closure.
 // Returns the three Lean arguments (state type, step function, state) and the closure.
 func (t *fnTrans) closureArg(e ast.Expr) ([]string, *closureInfo) {
+	if fl, isLit := e.(*ast.FuncLit); isLit {
+		// a function literal written as the argument: a closure that is defined here and named after the parameter.
+		// Only at the top level of the function body (the analyses that join the captured variables over the branches of
+		// an `if` / thread them through a loop look for closure NAMES)
+		if !t.topLevelArg[fl] {
+			fail(e, "a function literal handed to a function inside a loop, a branch or a closure")
+		}
+		sid := &ast.Ident{Name: t.fresh(t.litName[fl]), NamePos: fl.Pos()}
+		sv := types.NewVar(fl.Pos(), t.pi.pkg, sid.Name, t.typeOf(fl))
+		t.pi.info.Defs[sid] = sv
+		t.pi.info.Uses[sid] = sv
+		t.defineClosure(sid, fl)
+		e = sid
+	}
 	id, ok := e.(*ast.Ident)
 	if !ok {
 		fail(e, "a function value that is not the name of a local closure is handed to an external function")
@@ -310,8 +342,29 @@ func (t *fnTrans) closureArg(e ast.Expr) ([]string, *closureInfo) {
 
 // opaqueFnCall: a call of an opaque function that has function-typed parameters (and possibly reader parameters)
 func (t *fnTrans) opaqueFnCall(c *ast.CallExpr, fd *fnDecl, recv ast.Expr) (string, []string, bool) {
-	t.useOpaque(c, fd)
-	parts := []string{"X." + fd.extField(t.fd.pi.short)}
+	var parts []string
+	if fd.opaque {
+		t.useOpaque(c, fd)
+		parts = []string{"X." + fd.extField(t.fd.pi.short)}
+	} else {
+		// a TRANSLATED function with function-typed parameters: the same convention (state type, step function, state;
+		// the states come back after the new values of the reader parameters)
+		if fd.mutating {
+			fail(c, "call of %s: a method that writes through its receiver and has a function-typed parameter", fd.leanName)
+		}
+		t.deps[fd.leanName] = true
+		parts = []string{fd.leanName}
+		if fd.usesFuel {
+			parts = append(parts, "fuel")
+		}
+		if fd.usesExt {
+			t.fd.usesExt = true
+			parts = append(parts, "E")
+		}
+		if fd.usesX != "" {
+			parts = append(parts, t.xArg(c, fd.usesX))
+		}
+	}
 	if recv != nil {
 		parts = append(parts, t.expr(recv))
 	}
@@ -355,6 +408,53 @@ func (t *fnTrans) opaqueFnCall(c *ast.CallExpr, fd *fnDecl, recv ast.Expr) (stri
 	var vals []string
 	for i := 0; i < nres; i++ {
 		vals = append(vals, tupleProj(tmp, len(fd.mutParams)+len(fd.fnParams)+i, total))
+	}
+	return b.String(), vals, true
+}
+
+// ---- function-typed parameters of TRANSLATED functions ------------------------------------------------------
+//
+// `func (a *Authenticode) verifyDigest(cert, imageDigest func(crypto.Hash) ([]byte, error))` is translated with the same
+// three binders that an opaque function gets: `(σ0 : Type) (imageDigest : σ0 → crypto.Hash → σ0 × List UInt8 × GoErr)
+// (imageDigest_s : σ0)`, and returns the state it leaves in front of its results. A CALL `imageDigest(alg)` is
+// `let r := imageDigest imageDigest_s alg`, rebinds `imageDigest_s := r.1` and has the results `r.2…`: the function can
+// reach the state ONLY BY CALLING the parameter — here that is a property of the translated code, visible in Gen.lean,
+// not a hypothesis. The parameter used in any other way (handed on, stored, compared with nil) is rejected; so is a call of
+// it inside a loop (the state has no Lean type that the loop helper could name other than σk: not needed so far).
+
+// fnParamState: the parameter object of a function-typed parameter of the function being translated -> the synthetic
+// variable that holds the state of the closure behind it
+var fnParamState = map[types.Object]*types.Var{}
+
+// fnParamSigma: state variable -> the name of its type (σk)
+var fnParamSigma = map[types.Object]string{}
+
+func (t *fnTrans) fnParamCall(c *ast.CallExpr) (string, []string, bool) {
+	id, ok := c.Fun.(*ast.Ident)
+	if !ok {
+		return "", nil, false
+	}
+	po := t.pi.info.Uses[id]
+	sv, ok := fnParamState[po]
+	if !ok {
+		return "", nil, false
+	}
+	if t.closureMode {
+		fail(c, "call of a function-typed parameter inside a closure")
+	}
+	sig := po.Type().Underlying().(*types.Signature)
+	parts := []string{t.name(po), t.varRead(sv)}
+	for _, a := range c.Args {
+		parts = append(parts, t.expr(a))
+	}
+	tmp := t.fresh("r")
+	var b strings.Builder
+	fmt.Fprintf(&b, "let %s := %s\n", tmp, strings.Join(parts, " "))
+	total := 1 + sig.Results().Len()
+	b.WriteString(t.assignObj(c, sv, tupleProj(tmp, 0, total)))
+	var vals []string
+	for i := 0; i < sig.Results().Len(); i++ {
+		vals = append(vals, tupleProj(tmp, 1+i, total))
 	}
 	return b.String(), vals, true
 }
